@@ -851,7 +851,9 @@ impl PeerW {
     pub fn craft(&self, seq: i64, ack: Option<i64>, len: usize, syn: bool, fin: bool, rst: bool, win: u16, mss: Option<u16>, ws: Option<u8>) -> Vec<u8> {
         let aseq = self.peer_iss.wrapping_add(seq as u32);
         let aack = ack.map(|a| self.num.iss[1].unwrap_or(0).wrapping_add(a as u32));
-        let payload: Vec<u8> = (0..len as i64).map(|i| content(0, seq - 1 + i)).collect();
+        // (the octets a SYN carries follow the SYN in sequence space)
+        let first = if syn { seq } else { seq - 1 };
+        let payload: Vec<u8> = (0..len as i64).map(|i| content(0, first + i)).collect();
         self.ts_count.set(self.ts_count.get() + 1);
         let ts = if self.ts_on && (syn || self.ts_count.get() % 10 != 0) { Some((1000u32.wrapping_add(self.now as u32), self.ts_echo.get())) } else { None };
         let t = TcpSeg { sport: PORT[0], dport: PORT[1], seq: aseq, ack: aack, syn, fin, rst, psh: false, win, mss, wscale: ws, sackp: false, ts, payload, ..Default::default() };
@@ -1114,7 +1116,10 @@ pub fn peer_random(args: &Args) {
                     continue;
                 }
             }
-            let f = w.craft(0, None, 0, true, false, false, rng.range(0, 65535) as u16, peer_mss_opt, peer_ws);
+            // (now and then the SYN carries the first octets of the stream: the socket may leave them to be sent again, but
+            // it must not count them as received without storing them)
+            let syn_data = if rng.chance(20) { rng.range(1, 24) as usize } else { 0 };
+            let f = w.craft(0, None, syn_data, true, false, false, rng.range(0, 65535) as u16, peer_mss_opt, peer_ws);
             if !w.inject(f, &mut t, json!({})) {
                 continue;
             }
@@ -1141,6 +1146,22 @@ pub fn peer_random(args: &Args) {
             }
         } else {
             w.api_connect(&mut t);
+            // now and then a SYN-ACK / reset that arrives before the SYN has left (ingress runs before egress): one that does
+            // not acknowledge ISS + 1 opens nothing
+            if want >= 0 && rng.chance(40) {
+                // (the ISN is known before the SYN shows it only when the run has chosen it through the interface's seed)
+                w.num.iss[1] = Some(want as u32);
+                let ack = *rng.pick(&[Some(0i64), Some(0), Some(2), Some(-5), None]);
+                let kind = rng.below(3);
+                let f = w.craft(0, ack, 0, kind != 0, false, kind == 0, 1000, None, None);
+                if !w.inject(f, &mut t, json!({"early": true})) {
+                    continue;
+                }
+                w.now += 1;
+                if w.ep.state() != "SYN-SENT" {
+                    continue;
+                }
+            }
             if !w.timer_poll(&mut t, json!({})) {
                 continue;
             }
@@ -1159,7 +1180,8 @@ pub fn peer_random(args: &Args) {
                     continue;
                 }
             }
-            let f = w.craft(0, Some(1), 0, true, false, false, rng.range(0, 65535) as u16, peer_mss_opt, peer_ws);
+            let syn_data = if rng.chance(20) { rng.range(1, 24) as usize } else { 0 };
+            let f = w.craft(0, Some(1), syn_data, true, false, false, rng.range(0, 65535) as u16, peer_mss_opt, peer_ws);
             w.now += 1;
             if !w.inject(f, &mut t, json!({})) {
                 continue;
